@@ -19,6 +19,7 @@ type Solver struct {
 	in      io.WriteCloser
 	out     *bufio.Reader
 	Queries int
+	TimeNs  int64 // wall time spent waiting for check-sat answers
 	Time    time.Duration
 	Errors  int
 	tmoMs   int
@@ -89,6 +90,7 @@ func (s *Solver) Reset() {
 // CheckSat returns "sat", "unsat" or "unknown" (any error => "unknown").
 func (s *Solver) CheckSat() string {
 	t0 := time.Now()
+	defer func() { s.TimeNs += time.Since(t0).Nanoseconds() }()
 	s.Send("(check-sat)\n")
 	s.Queries++
 	res := "unknown"
